@@ -102,3 +102,69 @@ Example C06_example_clamped : conv_ok (unit_prog true) /\ clamped_check = true.
 Proof. exact (conj unit_prog_clamped_ok clamped_check_true). Qed.
 Example C06_example_program : conv_ok ex_prog.
 Proof. exact ex_prog_conv_ok. Qed.
+
+(* ------------------------------------------------------------------------------------------------
+   Stream level (appended): parse_stream = sequence of sequences, each a list of data units
+   (parse_info with its byte-align padding and "_offset" = io.tell()[0]; body chosen by the parse code;
+   up to and including the end-of-sequence unit), until the end of the stream -- Model/SerDesStream.v,
+   compared with the real parse_stream by tools/harness/C06.py.  vc2.py does NOT skip to
+   next_parse_offset: the next parse_info simply follows the body, and so does the model.
+   Loops run on explicit fuel ([ufuel] data units per sequence, [fuel] sequences); a run that exhausts
+   its fuel is an error and thereby excluded by the hypothesis [stream_des ... = Ok sdF].
+   Covered: every body function [body : parse_code -> next_parse_offset -> prog unit] all of whose
+   programs are in the class of C06_des_ser ([conv_ok]); "_state" is modelled as a constant. *)
+From VC2 Require Import Model.SerDesStream Proofs.SerDesStreamProofs.
+
+(* If the deserialiser model of parse_stream yields final state sdF (description root sdF) and
+   verify_complete passes, then the serialiser model of parse_stream on that description succeeds and
+   writes EXACTLY the input bits, verify_complete passes, it ends with the same description, and
+   re-deserialising its output yields sdF again. *)
+Theorem C06_stream_des_ser : forall (body : Z -> Z -> prog unit),
+  (forall c n, conv_ok (body c n)) ->
+  forall ufuel D fuel bs sdF,
+  stream_des body ufuel fuel bs = Ok sdF -> verify_complete sdF = Ok tt ->
+  exists ssF,
+    stream_ser D body ufuel fuel (c_ty sdF) (c_f sdF) = Ok ssF /\
+    bits (sio ssF) = bs /\
+    verify_complete ssF = Ok tt /\
+    root ssF = root sdF /\
+    stream_des body ufuel fuel (bits (sio ssF)) = Ok sdF.
+Proof. exact stream_des_ser. Qed.
+
+(* ... instantiated with the data-unit bodies of vc2.py: sequence_header (with its index
+   substitutions), auxiliary data and padding (clamped length), no body for other parse codes; picture
+   and fragment bodies are ANY programs of the covered class, chosen by the parse code.
+   PARTIAL in this respect: the real picture/fragment descriptions depend on the decoder state set by
+   the preceding sequence header (dimensions, version, slice geometry); they are covered as parameters
+   (hq_slice, ld_slice, fragment_header are in the class: C06_vc2_descriptions_covered), not as
+   functions of that state. *)
+Theorem C06_vc2_stream_des_ser_partial : forall pic frag D ufuel fuel bs sdF,
+  (forall c, conv_ok (pic c)) -> (forall c, conv_ok (frag c)) ->
+  stream_des (vc2_body pic frag) ufuel fuel bs = Ok sdF -> verify_complete sdF = Ok tt ->
+  exists ssF,
+    stream_ser D (vc2_body pic frag) ufuel fuel (c_ty sdF) (c_f sdF) = Ok ssF /\
+    bits (sio ssF) = bs /\
+    verify_complete ssF = Ok tt /\
+    root ssF = root sdF /\
+    stream_des (vc2_body pic frag) ufuel fuel (bits (sio ssF)) = Ok sdF.
+Proof. exact vc2_stream_des_ser. Qed.
+
+(* the parse-code tests used by the model are the translated pseudocode functions (Gen/ParseCodes.v) *)
+Theorem C06_code_tests_are_translated : forall (s : Gen.StateRec.pystate) (c : Z),
+  let s' := Gen.StateRec.set_st_parse_code s c in
+  code_seq_header c = Gen.ParseCodes.is_seq_header s' /\
+  code_end_of_sequence c = Gen.ParseCodes.is_end_of_sequence s' /\
+  code_auxiliary_data c = Gen.ParseCodes.is_auxiliary_data s' /\
+  code_padding_data c = Gen.ParseCodes.is_padding_data s' /\
+  code_picture c = Gen.ParseCodes.is_picture s' /\ code_fragment c = Gen.ParseCodes.is_fragment s'.
+Proof. exact code_tests_are_translated. Qed.
+
+(* non-vacuity: a two-sequence stream (padding unit with next_parse_offset 5, auxiliary data, end of
+   sequence; sequence header, end of sequence) deserialises and verifies in the model, and the body
+   function used is in the covered class *)
+Example C06_stream_example :
+  ex_stream_check = true /\ (forall c n, conv_ok (ex_body c n)).
+Proof.
+  exact (conj ex_stream_check_true
+              (vc2_body_ok (fun _ => Ret tt) (fun _ => Ret tt) (fun _ => conv_ret tt) (fun _ => conv_ret tt))).
+Qed.
